@@ -210,16 +210,26 @@ func runC09(c *Check, a *Analysis) {
 	if np == 0 {
 		c.Undecided("R-STREAM-ROUTE", "server push closure (WriteResponse inside a closure) not found")
 	}
-	if sf := p.Fn("(*Call).streaming"); sf == nil {
-		c.Undecided("R-STREAM-ROUTE", "(*Call).streaming not found")
-	} else {
-		for _, t := range callsIn(sf, "(*stream).trigger") {
-			recv := p.canon(t.Common().Args[0])
-			fr, base, ok := fieldOfLoad(recv)
-			okR := ok && fr.Struct == "Call" && fr.Field == "stream" && p.canon(base) == ssa.Value(sf.Params[0])
-			g, _ := p.guardedBy(t.(ssa.Instruction), matchFieldEqConst("upgrade", "Stream", 2))
-			c.Ob("R-STREAM-ROUTE", sc.key(sf, "deliver to own stream in streaming phase"), p.InstrPos(t), okR && g, ifs(!(okR && g), "Call.streaming delivers to a stream other than call.stream or outside the streaming phase"))
+	// client side: a received stream message goes to the stream of the call it was routed to, in the streaming phase
+	nDel := 0
+	for _, fn := range p.Fns {
+		if fileOf(p, topParent(fn)) != "conn.go" {
+			continue
 		}
+		for _, t := range callsIn(fn, "(*stream).trigger") {
+			if t.Parent() != fn && !p.isPlainHelper(t.Parent()) {
+				continue
+			}
+			nDel++
+			recv := p.canon(t.Common().Args[0])
+			fr, _, ok := fieldOfLoad(recv)
+			okR := ok && fr.Struct == "Call" && fr.Field == "stream"
+			g, _ := p.guardedBy(t.(ssa.Instruction), matchFieldEqConst("upgrade", "Stream", 2))
+			c.Ob("R-STREAM-ROUTE", sc.key(fn, "deliver to own stream in streaming phase"), p.InstrPos(t), okR && g, ifs(!(okR && g), "a received stream message is delivered to a stream other than the routed call's own, or outside the streaming phase"))
+		}
+	}
+	if nDel == 0 {
+		c.Undecided("R-STREAM-ROUTE", "no client-side stream delivery (stream.trigger) found")
 	}
 
 	// ---- R-STREAM-FIFO
@@ -236,7 +246,7 @@ func runC09(c *Check, a *Analysis) {
 				return
 			}
 			mc, ok := cc.Common().Args[len(cc.Common().Args)-1].(*ssa.MakeClosure)
-			if !ok || !closureCallsTo(mc.Fn.(*ssa.Function), "(*Call).streaming") {
+			if !ok || !closureCallsTo(mc.Fn.(*ssa.Function), deliveryName(p)) {
 				return
 			}
 			okQ := cc.Common().IsInvoke() && isLoadOf(p.canon(cc.Common().Value), "Conn", "readStream")
@@ -310,9 +320,9 @@ func runC09(c *Check, a *Analysis) {
 			continue
 		}
 		lk := l.Instr.(*ssa.Lookup)
-		for _, ev := range eventsOf(fn, "(*Call).streaming") {
+		for _, ev := range eventsOf(fn, deliveryName(p)) {
 			cc, isCall := ev.(*ssa.Call)
-			if !isCall || calleeName(cc) == "(*Call).streaming" {
+			if !isCall || calleeName(cc) == deliveryName(p) {
 				continue // inline delivery (direct I/O): no hop
 			}
 			var bad ssa.Instruction
@@ -952,4 +962,13 @@ func ruleStreamQueue(c *Check, a *Analysis, rule string) {
 	if n == 0 {
 		c.Undecided(rule, "ReadMessage does not take an element of stream.events")
 	}
+}
+
+// deliveryName: the call that hands a received stream message to the stream on the client side:
+// the helper (*Call).streaming while it exists, else the queueing call itself.
+func deliveryName(p *Prog) string {
+	if p.Fn("(*Call).streaming") != nil {
+		return "(*Call).streaming"
+	}
+	return "(*stream).trigger"
 }
